@@ -80,6 +80,15 @@ impl Block {
     }
 
     pub(crate) fn read(&self, in_block_offset: u64) -> std::io::Result<(Entry, usize)> {
+        // An entry never crosses the end of its block. Without these checks a scan that
+        // continues behind the last entry of a nearly full block (or a damaged size field)
+        // reads into the next block or past the end of the file.
+        if in_block_offset.saturating_add(PREFIX_META_SIZE as u64) > self.limit {
+            return Err(std::io::Error::new(
+                std::io::ErrorKind::InvalidData,
+                "no room for an entry header before the end of the block",
+            ));
+        }
         let mut meta_buffer = vec![0; PREFIX_META_SIZE];
         let file_offset = self.offset + in_block_offset;
         self.mmap.read(file_offset as usize, &mut meta_buffer);
@@ -109,6 +118,14 @@ impl Block {
             )
         })?;
         let actual_entry_size = meta.read_size;
+        if (actual_entry_size as u64)
+            > self.limit - in_block_offset - (PREFIX_META_SIZE as u64)
+        {
+            return Err(std::io::Error::new(
+                std::io::ErrorKind::InvalidData,
+                "entry size exceeds the block",
+            ));
+        }
 
         // Read the actual data
         let new_offset = file_offset + PREFIX_META_SIZE as u64;
